@@ -233,3 +233,61 @@ Definition xsitype_okb (d : N) (eb tb : blockset) (abstract : bool) (up : ancest
   | Some steps => forallb (fun m => negb (blocked eb m || blocked tb m)) steps
   | None => false
   end.
+
+(** * Substitution groups (3.3.6 Substitution Group OK (Transitive)) *)
+(** {disallowed substitutions} of an element declaration: extension / restriction / substitution *)
+Record eblock := { eb_types : blockset; eb_subst : bool }.
+(** the ancestry of the member's type: that type first; each entry = type, its {derivation method}, its
+    {prohibited substitutions} *)
+Definition typechain := list (N * dmethod * blockset).
+Definition tc_id (e : N * dmethod * blockset) : N := fst (fst e).
+Definition tc_method (e : N * dmethod * blockset) : dmethod := snd (fst e).
+Definition tc_block (e : N * dmethod * blockset) : blockset := snd e.
+(** element [member] may substitute for [head] (whose {disallowed substitutions} are [hb] and whose type is [ht]) iff
+    they are the same declaration, or: [hb] does not contain substitution; [head] is on the chain [affil] of
+    {substitution group affiliation}s of [member]; and no {derivation method} used on the way from the member's type up
+    to [ht] is contained in [hb], in the {prohibited substitutions} of [ht] or in those of an intermediate type *)
+Definition subst_ok (member head : N) (affil : list N) (hb : eblock) (ht : N) (up : typechain) : Prop :=
+  member = head \/
+  (eb_subst hb = false /\ In head affil /\
+   exists pre e post, up = pre ++ e :: post /\ tc_id e = ht /\ ~ In ht (map tc_id pre) /\
+     forall x, In x pre ->
+       blocked (eb_types hb) (tc_method x) = false /\
+       forall y, In y (tl pre ++ [e]) -> blocked (tc_block y) (tc_method x) = false).
+
+(** * Attribute wildcards: intersection and union (3.10.6), specified by what they must allow *)
+Definition is_wc_intersection (w a b : nsc) : Prop :=
+  forall x, wildcard_allows w x = wildcard_allows a x && wildcard_allows b x.
+Definition is_wc_union (w a b : nsc) : Prop :=
+  forall x, wildcard_allows w x = wildcard_allows a x || wildcard_allows b x.
+(** 3.10.6 Attribute Wildcard Intersection clause 5 / Union clause 5.3: the cases declared "not expressible" *)
+Definition inter_not_expressible (a b : nsc) : Prop :=
+  exists u v, a = NsNot u /\ b = NsNot v /\ u <> v /\ u <> absent /\ v <> absent.
+Definition union_not_expressible (a b : nsc) : Prop :=
+  exists u l, ((a = NsNot u /\ b = NsSet l) \/ (a = NsSet l /\ b = NsNot u)) /\
+              u <> absent /\ In absent l /\ ~ In u l.
+(** a combination of wildcards: the complete wildcard of attribute groups and a local <anyAttribute> (intersection),
+    extension of a base type (union) *)
+Inductive wexpr := WLeaf (c : nsc) | WInter (a b : wexpr) | WUnion (a b : wexpr).
+Fixpoint wexpr_allows (e : wexpr) (x : uri) : bool :=
+  match e with
+  | WLeaf c => wildcard_allows c x
+  | WInter a b => wexpr_allows a x && wexpr_allows b x
+  | WUnion a b => wexpr_allows a x || wexpr_allows b x
+  end.
+(** a decider for [subst_ok] (proved in Proofs08h) *)
+Fixpoint tc_split (ht : N) (up : typechain) : option (typechain * (N * dmethod * blockset)) :=
+  match up with
+  | [] => None
+  | e :: r => if (tc_id e =? ht)%N then Some ([], e)
+              else match tc_split ht r with Some (pre, x) => Some (e :: pre, x) | None => None end
+  end.
+Definition subst_okb (member head : N) (affil : list N) (hb : eblock) (ht : N) (up : typechain) : bool :=
+  (member =? head)%N ||
+  (negb (eb_subst hb) && mem_uri head affil &&
+   match tc_split ht up with
+   | None => false
+   | Some (pre, e) =>
+       forallb (fun x => negb (blocked (eb_types hb) (tc_method x)) &&
+                         forallb (fun y => negb (blocked (tc_block y) (tc_method x))) (tl pre ++ [e])) pre
+   end).
